@@ -210,6 +210,9 @@ class HarnessHang(Exception):
     pass
 
 
+RUN_HOOK = None  # optional object with begin(events)/end(): brackets exactly the run_tasks call (interrupt injection)
+
+
 class Spy:
     """pass-through wrapper of a real runner that records what the coordinator sees and, for
     the process runners, releases worker outcomes according to the schedule"""
@@ -344,7 +347,13 @@ def run_real(case, workdir):
             status = None
             returned = None
             try:
-                returned = lab.run_tasks(req, bust_cache=bool(ph['bust']), disable_progress=True, disable_top=True)
+                if RUN_HOOK is not None:
+                    RUN_HOOK.begin(events)
+                try:
+                    returned = lab.run_tasks(req, bust_cache=bool(ph['bust']), disable_progress=True, disable_top=True)
+                finally:
+                    if RUN_HOOK is not None:
+                        RUN_HOOK.end()
                 status = 'returned ' + ','.join(f'{t.k}:{v}' for t, v in returned.items())
             except LabError as e:
                 status = f'raised LabError {backend.spy.last_yield if backend.spy else None}'
@@ -389,21 +398,28 @@ def run_real(case, workdir):
             # workers still in flight when run_tasks ended are not part of the observation
             parts.append('execs=' + '/'.join(x for x in execs if int(x.split()[1]) not in inflight))
             store = {}
+            store_errors = []
             for t, o in sorted(first.items()):
                 if t in inflight:
                     continue
-                if lab.is_cached(o):
-                    store[t] = o._lt.cache.load_result_with_meta(lab._storage, o).value
+                try:
+                    if lab.is_cached(o):
+                        store[t] = o._lt.cache.load_result_with_meta(lab._storage, o).value
+                except BaseException as e:
+                    if RUN_HOOK is None:
+                        raise
+                    store_errors.append(f'{t}: {type(e).__name__}')
             parts.append('store=' + ','.join(f'{t}:{v}' for t, v in sorted(store.items())))
             marked = sorted(i for i, o in enumerate(objs) if o.result_meta is not None)
             parts.append('marked=' + lst(marked))
             parts.append('results=' + (lst(sorted(t.k for t in inner.results_map)) if inner is not None else ''))
-            parts.append('pending=' + (lst(t.k for t in st.pending_tasks) if st is not None else ''))
-            parts.append('active=' + (lst(sorted(t.k for ts in st.type_to_active_tasks.values() for t in ts))
+            parts.append('pending=' + (lst(t.k for t in getattr(st, 'pending_tasks', [])) if st is not None else ''))
+            parts.append('active=' + (lst(sorted(t.k for ts in getattr(st, 'type_to_active_tasks', {}).values() for t in ts))
                                       if st is not None else ''))
             recs.append(dict(events=events, status=status, returned=returned, execs=execs, store=store, marked=marked,
                              plan=plan, objs=objs, inflight=inflight, phase=pi, store_before=store_before,
-                             marked_before=marked_before,
+                             marked_before=marked_before, store_errors=store_errors,
+                             alive_at_exit=sorted(fakeproc.task_of(p.kwargs['thunk']).k for p in fakeproc.CTL.procs.values() if p.alive) if be != 'serial' else [],
                              terminated=[t.k for t in fakeproc.CTL.terminated] if be != 'serial' else []))
             obs_all.append('; '.join(parts))
             if be != 'serial':
